@@ -76,6 +76,17 @@ def main():
         if r.violation:
             model_findings.append(("bst", "Bits=%d" % bits, r.violation, r.trace[:60]))
 
+    # (1b) unbounded values and histories: Apalache discharges the inductive invariant of the ring (spec/RingInd.tla)
+    apalache = {}
+    ind = open(os.path.join(vlib.SPEC, "RingInd.tla")).read()
+    for size in ([3] if tier == "quick" else [1, 2, 3, 4, 5]):
+        txt = ind.replace("CInit == Size = 3", "CInit == Size = %d" % size)
+        ok0, out0 = vlib.run_apalache("RingInd.tla", txt, ["--cinit=CInit", "--init=Init", "--inv=IndInv", "--length=0"])
+        ok1, out1 = vlib.run_apalache("RingInd.tla", txt, ["--cinit=CInit", "--init=IndInit", "--inv=IndInv", "--length=1"])
+        apalache[size] = bool(ok0 and ok1)
+        if not (ok0 and ok1):
+            machinery.append("Apalache: inductive invariant of the ring (Size=%d) not discharged:\n%s" % (size, (out0 if not ok0 else out1)[-600:]))
+
     # (2) behaviours of the abstract models -> real code
     wd = vlib.scratch("verif-c17-")
     nhist = 0
@@ -152,6 +163,7 @@ def main():
                 "(tree) element-type embeddings; all observers compared after every step; non-trivial = every "
                 "history (each contains a state-changing operation)" % sizes,
         "exhaustive": True, "model_findings": [(k, c, i) for k, c, i, _ in model_findings],
+        "apalache_inductive_invariant_ring": {("Size=%d" % k): v for k, v in apalache.items()},
         "known_findings_hit": V.hit},
         time.time() - t0, len(V.new),
         assumptions=["histories longer than the depth bound are covered by the exhaustive refinement check of the "
